@@ -239,8 +239,12 @@ def gen_history(tape, sc, max_ops=3):
         n = 1 + tape.draw(max_ops, "nops")
         for _ in range(n):
             with tape.span("callerop"):
-                k = tape.weighted([3, 2, 1, 2], "opkind")
-                if k == 0:
+                k = tape.weighted([3, 2, 1, 2, 0.8], "opkind")
+                if k == 4:
+                    # absolute end times, including 0 / 0.0 and times already passed
+                    ops.append(("run", "abs:%s" % ["0", "0.0", "1", "-1", "0.5"][tape.draw(5, "abs_t_end")],
+                                None if tape.chance(0.3, "nomax") else 1 + tape.draw(4, "max_steps")))
+                elif k == 0:
                     ops.append(("run", None, 1 + tape.draw(4, "max_steps")))
                 elif k == 1:
                     ops.append(("run", "rel:%d" % (1 + tape.draw(4, "t_end")), None))
@@ -272,7 +276,9 @@ def ref_run_op(ref, op, event_cap):
     try:
         if is_run:
             t_end = op[1]
-            if isinstance(t_end, str):
+            if isinstance(t_end, str) and t_end.startswith("abs:"):
+                t_end = float(t_end[4:]) if "." in t_end else int(t_end[4:])
+            elif isinstance(t_end, str):
                 t_end = ref.vars["<t>"] + int(t_end[4:]) * (abs(ref.vars["<dt>"]) or 1)
             end = ref.run(t_end=t_end, max_steps=op[2], event_cap=event_cap)
             return ref.events[start:], bounds, end, t_end
